@@ -72,6 +72,7 @@ def lin_of(v):
 class ContentE3(C03.E3):
     def __init__(self, lib, sites=None, assumed=None):
         C03.E3.__init__(self, lib, sites if sites is not None else {}, assumed or {})
+        self.track_none = False      # also mark the not-found outcome of searches (needed by C10.H7 only)
 
     # ---------------- slice geography ----------------
     def where(self, w, v):
@@ -153,12 +154,16 @@ class ContentE3(C03.E3):
                 it = I.read(w, it[1])
             loc = self.where(w, it)
             rev = any(m[0] == repr(it) for m in markers(w, 'rev'))
-            byte = C03.searched_byte(I, args[1]) if len(args) > 1 else None
+            pred = C03.searched_pred(I, args[1]) if len(args) > 1 else None
+            # the found position holds b ('eq' predicate) or is the first that does not hold b (('ne', b))
+            byte = None if not pred else (pred[0] if pred[1] == 'eq' else ('ne', pred[0]))
             res = []
             for w2, v in out:
                 if v[0] == 'adt' and v[2] == 1 and v[3][0][0] == 'sym' and loc is not None and it[0] == 'iterv' and it[1]:
                     ln = lin_of(it[1][0])
                     w2 = self.add(w2, _mk('pos', (v[3][0][1], loc[0], loc[1], ln, byte, rev)))
+                elif self.track_none and v[0] == 'adt' and v[2] == 0 and loc is not None and it[0] == 'iterv' and it[1]:
+                    w2 = self.add(w2, _mk('posnone', (loc[0], loc[1], lin_of(it[1][0]), byte, rev)))
                 res.append((w2, v))
             return res
         if p == 'core::slice::<impl [T]>::copy_within' and len(args) == 3:
